@@ -240,6 +240,29 @@ class ScrapliFileHandler(FileHandler_):
         # current payload to the _record_msg_buf buffer
         self._record_msg_buf += payload
 
+    def close(self) -> None:
+        """
+        Override standard library FileHandler.close to emit any still buffered read message
+
+        Args:
+            N/A
+
+        Returns:
+            None
+
+        Raises:
+            N/A
+
+        """
+        self.acquire()
+        try:
+            if self._record_buf:
+                self.emit_buffered()
+        finally:
+            self.release()
+
+        super().close()
+
 
 def get_instance_logger(
     instance_name: str, host: str = "", port: int = 0, uid: str = ""
